@@ -17,6 +17,7 @@ import (
 	_ "verifengine/props/c12"
 	_ "verifengine/props/c13"
 	_ "verifengine/props/c14"
+	_ "verifengine/props/c15"
 	_ "verifengine/props/c16"
 	_ "verifengine/props/c17"
 	_ "verifengine/props/c19"
